@@ -1,0 +1,103 @@
+//go:build verif
+
+package strmap
+
+// Contracts for the read side of StrMap / Str2Str. Comment-only file.
+//
+// The table is described as it is (smTable): every index stored in it is in range. That
+// LoadFromSlice / makeHashtable establish more than that (items of one slot are contiguous,
+// hashtable[slot] is the first of them, slot == hash % len(hashtable)) is NOT proved: they
+// use sort.Sort and floating point arithmetic, which are outside the verifier's subset. What is
+// proved of Get is therefore relative to the table contents: it never fails, it answers absent on
+// an empty / never loaded map, and it returns exactly what a scan of the slot run starting at
+// hashtable[slot] finds: the value of the first item of the run whose key equals s.
+
+//@ extern github.com/cloudwego/gopkg/internal/hash/maphash.String
+//@   ensures ret == ufint("maphash.String", s)
+//@   assigns \nothing
+
+//@ extern hash/maphash.MakeSeed
+//@   assigns \nothing
+
+//@ pred smItemOK(m, j) = 0 <= m.items[j].off && m.items[j].off + int(m.items[j].sz) <= len(m.data)
+//@ pred smTable(m) = len(m.hashtable) <= 0x7fffffff && len(m.items) <= 0x7fffffff && (forall s int :: 0 <= s && s < len(m.hashtable) ==> int(m.hashtable[s]) < len(m.items)) && (forall j int :: 0 <= j && j < len(m.items) ==> smItemOK(m, j))
+//@ pred smKeyEq(m, j, s) = string(m.data[m.items[j].off : m.items[j].off + int(m.items[j].sz)]) == s
+
+// slot run: the items from hashtable[slot] on, as long as their slot field equals slot (the first
+// one is taken unconditionally, as the code does).
+//@ pred smSlot(m, s) = int(uint32(ufint("maphash.String", s)) % uint32(len(m.hashtable)))
+//@ pred smFirst(m, s) = int(m.hashtable[smSlot(m, s)])
+//@ pred smInRun(m, s, j) = forall k int :: smFirst(m, s) < k && k <= j ==> int(m.items[k].slot) == smSlot(m, s)
+
+//@ func StrMap.Get
+//@   arith int
+//@   props C07
+//@   requires !isnil(m) && smTable(m)
+//@   ensures len(m.hashtable) == 0 ==> !ok
+//@   ensures len(m.hashtable) > 0 && smFirst(m, s) < 0 ==> !ok
+//@   ensures ok ==> exists j int :: smFirst(m, s) <= j && j < len(m.items) && smInRun(m, s, j) && smKeyEq(m, j, s) && same(t, m.items[j].v) && (forall k int :: smFirst(m, s) <= k && k < j ==> !smKeyEq(m, k, s))
+//@   ensures !ok && len(m.hashtable) > 0 && smFirst(m, s) >= 0 ==> forall j int :: smFirst(m, s) <= j && j < len(m.items) && smInRun(m, s, j) ==> !smKeyEq(m, j, s)
+//@   assigns \nothing
+//@   loop 1 invariant int(i) + 1 <= int(j) && int(j) <= len(m.items) && int(i) == smFirst(m, s) && int(slot) == smSlot(m, s) && len(m.hashtable) > 0
+//@   loop 1 invariant smInRun(m, s, int(j) - 1) && (forall k int :: smFirst(m, s) <= k && k < int(j) ==> !smKeyEq(m, k, s))
+
+//@ func New
+//@   arith int
+//@   props C07
+//@   ensures fresh(ret) && isnil(ret.data) && isnil(ret.items) && isnil(ret.hashtable)
+
+//@ func StrMap.Len
+//@   arith int
+//@   props C07
+//@   requires !isnil(m)
+//@   ensures ret == len(m.items)
+
+// Item: the i'th loaded pair: the key is the (zero-copy) string at the item's bytes of data.
+//@ func StrMap.Item
+//@   arith int
+//@   props C07
+//@   requires !isnil(m) && 0 <= i && i < len(m.items) && smItemOK(m, i)
+//@   ensures len(ret0) == int(m.items[i].sz) && region(ret0) == region(m.data) && offset(ret0) == offset(m.data) + m.items[i].off && same(ret1, m.items[i].v)
+//@   assigns \nothing
+
+// LoadFromSlice is not verified (see the top of the file); what is used of it by Str2Str is its
+// failure mode and its frame: a length mismatch is an error and then nothing is touched.
+//@ func StrMap.LoadFromSlice
+//@   trusted
+//@   props C07
+//@   requires !isnil(m)
+//@   ensures len(kk) != len(vv) ==> ret != nil
+//@   assigns len(kk) == len(vv) ==> m.data, len(kk) == len(vv) ==> m.items, len(kk) == len(vv) ==> m.hashtable
+//@   assigns len(kk) == len(vv) ==> m.data[0:cap(m.data)], len(kk) == len(vv) ==> m.hashtable[0:cap(m.hashtable)]
+
+// Str2Str: a StrMap[int] whose values are indices into a StrStore.
+//@ pred s2sInv(sm) = !isnil(sm.strMap) && !isnil(sm.strStore) && smTable(sm.strMap) && (forall j int :: 0 <= j && j < len(sm.strMap.items) ==> sm.strMap.items[j].v < 0 || sm.strMap.items[j].v >= len(sm.strStore.buf) || strstore.ssValid(sm.strStore, sm.strMap.items[j].v))
+
+//@ func Str2Str.Get
+//@   arith int
+//@   props C07
+//@   requires !isnil(sm) && s2sInv(sm)
+//@   let m = sm.strMap
+//@   ensures len(m.hashtable) == 0 ==> !ret1
+//@   ensures len(m.hashtable) > 0 && smFirst(m, k) < 0 ==> !ret1
+//@   ensures !ret1 ==> len(ret0) == 0
+//@   ensures ret1 ==> exists j int :: smFirst(m, k) <= j && j < len(m.items) && smInRun(m, k, j) && smKeyEq(m, j, k) && (forall i int :: smFirst(m, k) <= i && i < j ==> !smKeyEq(m, i, k)) && (0 <= m.items[j].v && m.items[j].v < len(sm.strStore.buf) ==> len(ret0) == int(vs.LE32(sm.strStore.buf, m.items[j].v)) && region(ret0) == region(sm.strStore.buf) && offset(ret0) == offset(sm.strStore.buf) + m.items[j].v + 4)
+//@   ensures !ret1 && len(m.hashtable) > 0 && smFirst(m, k) >= 0 ==> forall j int :: smFirst(m, k) <= j && j < len(m.items) && smInRun(m, k, j) ==> !smKeyEq(m, j, k)
+//@   assigns \nothing
+
+//@ func Str2Str.Len
+//@   arith int
+//@   props C07
+//@   requires !isnil(sm) && !isnil(sm.strMap)
+//@   ensures ret == len(sm.strMap.items)
+
+// A failed load (length mismatch) changes nothing: neither the value store nor the key map.
+//@ func Str2Str.LoadFromSlice
+//@   arith int
+//@   props C07
+//@   requires !isnil(sm)
+//@   ensures len(kk) != len(vv) ==> ret != nil
+//@   assigns len(kk) == len(vv) ==> sm.strStore, len(kk) == len(vv) ==> sm.strMap
+//@   assigns len(kk) == len(vv) ==> sm.strStore.buf, len(kk) == len(vv) ==> sm.strStore.buf[0:cap(sm.strStore.buf)]
+//@   assigns len(kk) == len(vv) ==> sm.strMap.data, len(kk) == len(vv) ==> sm.strMap.items, len(kk) == len(vv) ==> sm.strMap.hashtable
+//@   assigns len(kk) == len(vv) ==> sm.strMap.data[0:cap(sm.strMap.data)], len(kk) == len(vv) ==> sm.strMap.hashtable[0:cap(sm.strMap.hashtable)]
